@@ -103,6 +103,11 @@ ZoneOfSpelling(sp) == CASE sp[1] \in {"name", "obj"} -> (IF NameKnown(sp[2]) THE
                         [] sp[1] = "none"  -> NoZone
                         [] OTHER -> <<"undefined">>
 
+\* Named deviation FixedOffsetObjects: whether a fixed-offset tzinfo object of another library (datetime.timezone,
+\* dateutil.tz.tzoffset, pytz.FixedOffset) is recognised as a zone is not pinned - so handing one to dt_bump is not claimed;
+\* tz_replace / tz_convert / dt(tzinfo =) take them as they are.
+Claimed(op, sp) == ~(op = "bump" /\ sp[1] = "fixed")
+
 \* is_tz: TRUE for every zone that as_tz makes of a name (such a zone can then be handed to dt / dt_bump as it is), FALSE
 \* for None, strings and numbers.  Named deviation FixedOffsetObjects: for fixed-offset tzinfo objects (datetime.timezone,
 \* dateutil.tz.tzoffset) the statement pins nothing.
